@@ -164,6 +164,13 @@ var vfTypes = map[string]*vfElemType{
 		}
 		return v
 	}},
+	"u32": {Name: "u32", DT: Uint32, Size: 4, Make: func(n, pat int) interface{} {
+		v := make([]uint32, n)
+		for i := range v {
+			v[i] = uint32(4000000000) + uint32(vfPatVal(i, pat))
+		}
+		return v
+	}},
 	"str4": {Name: "str4", DT: String, Size: 4, Opts: []DatasetOption{WithStringSize(4)}, Make: func(n, pat int) interface{} {
 		v := make([]string, n)
 		for i := range v {
